@@ -992,11 +992,19 @@ pub fn shard(part: Part, seed: u64, tier: &str, from: u64, to: u64, out: &str) -
                 {
                     let nt = g.model.types.len();
                     let mut variants: Vec<(&str, ZoneModel, tzif::TzifOpts, String)> = Vec::new();
-                    if nt >= 2 {
+                    {
+                        // an indicator array whose length is neither 0 nor typecnt
+                        let len = if nt >= 2 && rng.chance(2, 3) { 1 + rng.usize(nt - 1) } else { nt + 1 + rng.usize(3) };
                         let mut o2 = g.opts.clone();
-                        o2.isstd = vec![0; nt - 1];
-                        o2.isut = vec![];
-                        variants.push(("isstd_count_mismatch", g.model.clone(), o2, format!("isstdcnt = {} with typecnt = {}", nt - 1, nt)));
+                        if rng.chance(1, 2) {
+                            o2.isstd = vec![0; len];
+                            o2.isut = vec![];
+                            variants.push(("isstd_count_mismatch", g.model.clone(), o2, format!("isstdcnt = {} with typecnt = {}", len, nt)));
+                        } else {
+                            o2.isstd = if rng.chance(1, 2) { vec![1; nt] } else { vec![] };
+                            o2.isut = vec![0; len];
+                            variants.push(("isut_count_mismatch", g.model.clone(), o2, format!("isutcnt = {} with typecnt = {}", len, nt)));
+                        }
                     }
                     {
                         let mut m2 = g.model.clone();
